@@ -113,7 +113,7 @@ def fork_map(fn, items, R, fatal_site, describe=repr, jobs=None, on_result=None)
     """Run fn(item, tally) for every item in `jobs` forked workers (static interleaved sharding, so
     the visiting order is deterministic). A worker that dies is an observed outcome: the item it was
     processing gets a violation at `fatal_site`, and the remaining items of the shard continue in a
-    fresh worker. Returns True if every item ran to completion before the deadline."""
+    fresh worker. Returns True if every item ran to completion (no worker died, deadline not hit)."""
     jobs = jobs or JOBS
     n = len(items)
     if n == 0: return True
@@ -187,6 +187,7 @@ def fork_map(fn, items, R, fatal_site, describe=repr, jobs=None, on_result=None)
                 t = Tally()
                 t.fail(fatal_site, describe(items[shard[started]]), "worker survives the item", describe_status(st))
                 t.merge_into(R)
+                complete = False                                # that item's enumeration was cut short: the stage is partial
                 if started + 1 < len(shard):
                     pending.append((shard, started + 1))
     return complete
